@@ -4,7 +4,7 @@
    ./check C17 (real MeterProvider, 1..4 readers of mixed temporality, scripted callbacks, real and scripted clock).
    Histories are arbitrary lists of operations; [op_ok] is what the case parser guarantees (reader indices exist, callback
    identities come from the finite universe); the points handed out are compared on the attribute sets of [attrs]. *)
-From V Require Import C17.Glue C17.ProofsReg C17.ProofsBase C17.ProofsSum C17.ProofsGauge C17.ProofsMeets C17.ProofsHist C17.ProofsLv C17.ProofsTop C17.ProofsWire.
+From V Require Import C17.Glue C17.ProofsReg C17.ProofsBase C17.ProofsSum C17.ProofsGauge C17.ProofsMeets C17.ProofsHist C17.ProofsLv C17.ProofsTop C17.ProofsWire C17.ProofsRace.
 Local Open Scope Z_scope.
 
 (* ---- "At each collection by a reader every callback registered on an observable instrument is invoked exactly once":
@@ -180,10 +180,25 @@ Theorem observations_round_trip : forall l, parse_obs (print_obs l) = Some l.
 Proof. exact parse_print_obs. Qed.
 Print Assumptions observations_round_trip.
 
-Theorem model_meets_spec_on_the_wire : forall l cs, parse_case l = Some cs -> run_spec l (run_model l) = [].
+Theorem model_meets_spec_on_the_wire : forall l cs, parse_case l = Some cs -> run_spec_seq l (run_model_seq l) = [].
 Proof. exact model_meets_spec_wire_lemma. Qed.
 Print Assumptions model_meets_spec_on_the_wire.
 
 Theorem parsed_cases_are_well_formed : forall l c ops, parse_case l = Some (CObs c ops) -> Forall (op_ok c) ops.
 Proof. exact parse_case_ok. Qed.
 Print Assumptions parsed_cases_are_well_formed.
+
+(* ---- ORACE cases (AddCallback / RemoveCallback / instrument destruction racing with collections under the scheduler shim):
+   the SPEC of coq/C17/SpecRace.v is evaluated on the implementation's event history under each explored schedule; there is no
+   theorem over all interleavings.  The SPEC is neither vacuous nor unsatisfiable: it accepts a removal that waits for the
+   running pass and rejects a callback entered after its removal returned. *)
+Theorem race_spec_is_discriminating :
+  spec_race race_init race_threads true history_waits = [] /\
+  spec_race race_init race_threads true history_copy = fail "removed_never_invoked:after_removal_returned" /\
+  spec_race [RAdd k0] [[RRem k0]; [RCollect 0]] true
+    [EBA (-1) k0; ERA (-1) k0; EBR 0 k0; ERR 0 k0; EBC 1 0; ECall 1 k0; EDone 1 k0; EEC 1 0; EBC (-1) 1; EEC (-1) 1]
+    = [tag "removed_never_invoked:after_removal_returned"; tag "removed_never_invoked:invoked_in_later_collection"] /\
+  spec_race [RAdd k0] [[RCollect 0]] true [EBA (-1) k0; ERA (-1) k0; EBC 0 0; EEC 0 0; EBC (-1) 1; ECall (-1) k0; EDone (-1) k0; EEC (-1) 1]
+    = fail "callback_once_per_collection:not_invoked".
+Proof. exact race_spec_examples. Qed.
+Print Assumptions race_spec_is_discriminating.
